@@ -307,7 +307,7 @@ func c16(c *core.Ctx) {
 		}
 	}
 	for _, st := range storesToField(qa, fedPkg+".eventQueue.nextID") {
-		if bo, ok := st.Val.(*ssa.BinOp); ok && bo.Op == token.ADD && ssax.LoadOfField(fedPkg + ".eventQueue.nextID")(bo.X) {
+		if bo, ok := st.Val.(*ssa.BinOp); ok && bo.Op == token.ADD && ssax.LoadOfField(fedPkg+".eventQueue.nextID")(bo.X) {
 			if k, isC := constInt(bo.Y); isC && k == 1 {
 				okInc = true
 			}
